@@ -140,7 +140,13 @@ impl Storage {
         Ok(&self.snaps.front().unwrap().snap)
     }
     pub fn new_builder(&mut self) -> Builder {
-        self.free.pop().unwrap_or_default().recycle()
+        // Number the UUID types like the newest stored snapshot does. All
+        // stored snapshots then agree on the numbering, whichever of them the
+        // next delta is based on.
+        match self.snaps.front() {
+            Some(newest) => newest.snap.clone().recycle(),
+            None => self.free.pop().unwrap_or_default().recycle(),
+        }
     }
     pub fn set_delta_tick<W>(&mut self, warn: &mut W, tick: i32) -> Result<(), UnknownSnap>
     where
